@@ -10,7 +10,15 @@ integer and its scaled (physical) float64 representation:
   which `DiscardValue` is called;
 * `getScaled` / `setScaled` — the generated `XxxScaled` / `SetXxxScaled` of profile/mesgdef
   (internal/cmd/fitgen/profile/mesgdef/mesgdef.tmpl:188-300): their own arithmetic and their own conversion;
-* `csvParseScaled` — cmd/fitconv/fitcsv/csv_to_fit.go:496-560, the scaled path of `parseValue`.
+* `getScaledSlice` / `setScaledSlice`, `getScaledArray` / `setScaledArray` — the generated accessors of slice (`[]T`)
+  and fixed-array (`[N]T`) fields (mesgdef.tmpl: the loops over the elements, the nil / whole-array sentinel tests);
+* `validatorRestoreDev`, `validatorDevField`, `validatorSeq` — encoder/validator.go:157-227: a developer field is restored with
+  the base type / scale / offset of the native field its field description designates (looked up per field), else
+  with the description's own scale / offset; the validator's memory (developer data ids, field descriptions) over
+  a sequence of messages;
+* `csvParseScaled` — cmd/fitconv/fitcsv/csv_to_fit.go:496-560, the scaled path of `parseValue`;
+* `csvHasDot`, `csvCell` — what decides between that path and the integer path: `strings.Contains(cell, ".")` on
+  the text `format` (formatter.go:50-55) wrote for the float64.
 
 Numbers are bit patterns (`FitModel/F64.lean`, `FitModel/Value.lean`). Every float→integer conversion is Go's
 conversion on amd64 (`F64.cvt`), flagged by `F64.cvtFlag` where the Go specification leaves it to the platform.
@@ -255,5 +263,160 @@ def csvParseScaled (x bt scale offset : Nat) : Option Value :=
   (csvTgt bt).map fun t =>
     let dv := discard x scale offset
     mkScalar t (conv t (if t.isInteger then round dv else dv))
+
+/-! ### generated accessors of slice and fixed-array fields -/
+
+/-- Go kind code of the regenerated accessor table (`Generated/ProfileArith.lean`, `Typed.ty`): 0..7 =
+int8, uint8, int16, uint16, int32, uint32, int64, uint64 -/
+def intTyOfCode : Nat → IntTy
+  | 0 => .i8 | 1 => .u8 | 2 => .i16 | 3 => .u16 | 4 => .i32 | 5 => .u32 | 6 => .i64 | _ => .u64
+
+/-- `XxxScaled()` of a slice field `[]T` (`none` = Go's nil slice): `if m.X == nil { return nil }`, else
+`make([]float64, len)` and per element the scalar rule (the element's own sentinel test included) -/
+def getScaledSlice (ty : IntTy) (invalid : Nat) (xs : Option (List Nat)) (scale offset : Nat) : Option (List Nat) :=
+  match xs with
+  | none => none
+  | some xs => some (xs.map fun x => getScaled ty invalid x scale offset)
+
+/-- `SetXxxScaled(vs []float64)`: `if vs == nil { m.X = nil }`, else `make([]T, len(vs))` and per element:
+NaN, ±Inf or `> float64(invalid)` store the sentinel, everything else is rounded and converted -/
+def setScaledSlice (ty : IntTy) (invalid : Nat) (vs : Option (List Nat)) (scale offset : Nat) : Option (List Nat) :=
+  match vs with
+  | none => none
+  | some vs => some (vs.map fun v => setScaled ty invalid v scale offset)
+
+/-- `XxxScaled()` of a fixed-array field `[N]T` (`xs.length = N`): the whole array equal to `[N]T{invalid, …}` returns
+`[N]float64{float64 invalid, …}`; otherwise per element the scalar rule -/
+def getScaledArray (ty : IntTy) (invalid : Nat) (xs : List Nat) (scale offset : Nat) : List Nat :=
+  if xs = List.replicate xs.length invalid then List.replicate xs.length float64Invalid
+  else xs.map fun x => getScaled ty invalid x scale offset
+
+/-- `SetXxxScaled(vs [N]float64)`: the field is first filled with the sentinel; an element whose product is NaN,
+±Inf or `> float64(invalid)` is skipped (keeps the sentinel), every other one is rounded and converted -/
+def setScaledArray (ty : IntTy) (invalid : Nat) (vs : List Nat) (scale offset : Nat) : List Nat :=
+  (List.replicate vs.length invalid).zipWith (fun keep v =>
+    let u := mul (add v offset) scale
+    if isNaN u || isInf u || fgt u (ofInt (ty.toInt invalid)) then keep else cvt ty (round u)) vs
+
+/-! ### encoder validator: developer fields -/
+
+/-- what `Validate` reads of a field description (`mesgdef.FieldDescription`): developer data index, field
+definition number, fit base type id, scale (uint8), offset (int8 bit pattern), native message / field number -/
+structure DevDesc where
+  devIdx : Nat
+  num : Nat
+  btId : Nat
+  scale : Nat
+  offset : Nat
+  nativeMesg : Nat
+  nativeField : Nat
+  deriving DecidableEq, Repr, Inhabited
+
+/-- `Factory.CreateField(mesgNum, fieldNum)` as far as the restoration reads it: `some (baseType, scale, offset)` for a
+field the factory knows (`Name != factory.NameUnknown`), `none` for an unknown one -/
+abbrev Factory := Nat → Nat → Option (Nat × Nat × Nat)
+
+/-- encoder/validator.go:187-207. A field description with a valid native message AND field number: the value is
+restored with the base type, scale and offset of `factory.CreateField(NativeMesgNum, NativeFieldNum)` — looked up
+for THIS description — if that field is known and its pair is not the unit pair; otherwise, if the description
+carries a scale and an offset of its own, with `float64(Scale)`, `float64(Offset)` and its fit base type id. -/
+def validatorRestoreDev (fac : Factory) (d : DevDesc) (v : Value) : Value :=
+  if d.nativeMesg ≠ mesgNumInvalid ∧ d.nativeField ≠ uint8Invalid then
+    match fac d.nativeMesg d.nativeField with
+    | some (bt, s, o) => if !(feq s oneBits) || !(feq o 0) then discardValue v bt s o else v
+    | none => v
+  else if d.scale ≠ uint8Invalid ∧ d.offset ≠ sint8Invalid then
+    discardValue v d.btId (ofInt d.scale) (ofInt (IntTy.i8.toInt d.offset))
+  else v
+
+/-- what the validator remembers between messages: the developer data indexes and the field descriptions seen, in order -/
+structure VState where
+  ddis : List Nat := []
+  descs : List DevDesc := []
+  deriving Repr, Inhabited
+
+inductive DevErr where
+  | missingDdi      -- errMissingDeveloperDataId
+  | missingDesc     -- errMissingFieldDescription
+  | typeMismatch    -- errValueTypeMismatch (valueIntegrity against the description's fit base type id)
+  deriving DecidableEq, Repr, Inhabited
+
+/-- lines 160-215 for one developer field `(developer data index, number, value)` under the state `st`, validator made
+with `ValidatorWithPreserveInvalidValues` (nothing is omitted): the index must have been announced, the FIRST matching
+description is taken, the value is restored and must align with the description's base type.
+(Numeric scalar values: the UTF-8 and the 255-byte size tests of `valueIntegrity` cannot fail.) -/
+def validatorDevField (fac : Factory) (st : VState) (devIdx num : Nat) (v : Value) : Except DevErr Value :=
+  if !(st.ddis.contains devIdx) then .error .missingDdi
+  else
+    match st.descs.find? fun d => d.devIdx == devIdx && d.num == num with
+    | none => .error .missingDesc
+    | some d =>
+      let v' := validatorRestoreDev fac d v
+      if !(align v' d.btId) then .error .typeMismatch else .ok v'
+
+/-- one message handed to the validator: a developer_data_id message (its developer data index), a field_description
+message, or any other message carrying developer fields `(developer data index, number, value)` and no native field -/
+inductive VItem where
+  | ddi (idx : Nat)
+  | desc (d : DevDesc)
+  | mesg (devs : List (Nat × Nat × Value))
+  deriving Repr, Inhabited
+
+/-- `Validate` on one such message: new state, and the developer field values left in the message (or the error) -/
+def validatorStep (fac : Factory) (st : VState) : VItem → VState × Except DevErr (List Value)
+  | .ddi i => ({ st with ddis := st.ddis ++ [i] }, .ok [])
+  | .desc d => ({ st with descs := st.descs ++ [d] }, .ok [])
+  | .mesg devs => (st, devs.mapM fun d => validatorDevField fac st d.1 d.2.1 d.2.2)
+
+/-- ONE validator over a sequence of messages -/
+def validatorSeq (fac : Factory) : VState → List VItem → List (Except DevErr (List Value))
+  | _, [] => []
+  | st, it :: rest => let r := validatorStep fac st it; r.2 :: validatorSeq fac r.1 rest
+
+/-! ### CSV: which cells are read through the scaled path -/
+
+/-- `|x|` on bit patterns -/
+def fabs (x : Nat) : Nat := x % 2 ^ 63
+
+/-- fitcsv `format` on a float64: `value == float64(int64(value))` (then the text is `FormatFloat(value, 'f', 1, 64)`: "x.0") -/
+def csvIsWhole (x : Nat) : Bool := feq x (ofInt (IntTy.i64.toInt (cvt .i64 x)))
+
+/-- the float64 nearest to `d · 10^k` -/
+def decBits (d : Nat) (k : Int) : Nat :=
+  if k ≥ 0 then roundPos b64 (d * 10 ^ k.toNat) 1 0 else roundPos b64 d (10 ^ (-k).toNat) 0
+
+/-- the shortest decimal that reads back as `|x|` has ONE significant digit, `d·10^k` with `lo ≤ k ≤ hi`
+(candidates: the decimal exponents within 2 of the estimate of `log10 |x|` obtained from the binary exponent) -/
+def oneDigit (x : Nat) (lo hi : Int) : Bool :=
+  match decode x with
+  | .fin _ m e =>
+    if m = 0 then false else
+    let l2 : Int := (m.log2 : Int) + e
+    let k0 : Int := l2 * 30103 / 100000
+    [k0 - 2, k0 - 1, k0, k0 + 1, k0 + 2].any fun k =>
+      decide (lo ≤ k) && decide (k ≤ hi) && (List.range 9).any fun j => decBits (j + 1) k == fabs x
+  | _ => false
+
+/-- the float64 nearest to 10^-4 -/
+def tenM4Bits : Nat := 0x3f1a36e2eb1c432d
+
+/-- **the text `format` writes for the float64 `x` contains a '.'** (formatter.go:50-55 + strconv): a whole value is
+written with `'f', 1` ("x.0"); any other finite value with `'g', -1` (shortest digits `d₁d₂…dₙ`, decimal exponent `exp`):
+`%e` form iff `exp < -4 || exp >= eprec`, where strconv takes `eprec = 6` for the shortest precision (`exp >= 6` can
+only happen to a value the first test did not find whole when `|x| > 2^63`: the int64 conversion is out of range);
+the `%e` form has a '.' iff `n > 1`; the `%f` form of a value that is not whole always has one.
+NaN and ±Inf are written "NaN", "+Inf", "-Inf" (no '.'). -/
+def csvHasDot (x : Nat) : Bool :=
+  match decode x with
+  | .fin _ _ _ =>
+    csvIsWhole x ||
+      !((flt (fabs x) tenM4Bits && oneDigit x (-400) (-5)) || (fgt (fabs x) two63Bits && oneDigit x 6 400))
+  | _ => false
+
+/-- `parseValue` on the cell `format` wrote for the float64 `x` (a scaled column), integer / float base type:
+with a '.' the scaled path; without one `strconv.ParseUint` / `ParseInt` of a text that is not an integer
+numeral fails (`none`; the cell's field is dropped by the reader) -/
+def csvCell (x bt scale offset : Nat) : Option (Option Value) :=
+  if csvHasDot x then some (csvParseScaled x bt scale offset) else none
 
 end Fit.ScaleOffset
